@@ -70,7 +70,8 @@ fn remove_module_body(lo: u32, hi: u32) {
     let ev = ModuleRemoved { hook: hook.clone(), module: module.clone() };
     prop!(model::n_events() == 1 && model::event_is(0, ModuleRemoved::EVENT_ID, &ev.event_words()), "C20.compliance.remove_module_from.one_exact_event");
     witness!(pre.n == hi && p == 0, "remove_module.first_of_a_full_list");
-    witness!(pre.n == lo && p + 1 == lo as usize, "remove_module.last_of_the_shortest_list");
+    let low = if lo == 0 { 1 } else { lo };
+    witness!(pre.n == low && p + 1 == low as usize, "remove_module.last_of_the_shortest_list");
     end_checks(2);
 }
 fn getters_body(lo: u32, hi: u32) {
